@@ -47,6 +47,10 @@ func gen(g *hx.Gen) {
 			emit(gr.Relabel(r.Perm(gr.N)), nvar)
 		}
 	}
+	// corpus: the two inputs on which NumberOfInducedPaths was wrong before /repo commit 5cef100
+	// (one vertex: panic; the path on three vertices with bound 0: edges still counted)
+	emit(gx.Empty(1), 8)
+	emit(gx.Path(3), 8)
 	// n <= 3: every labelled graph, every representation under every relabelling
 	for n := 0; n <= 3; n++ {
 		gx.AllLabelled(n, func(gr *gx.G) {
